@@ -89,7 +89,8 @@ func (c06RaceWorld) Run(prop string, ch *zsim.Choices, trace bool) *RunResult {
 		s := zsim.S
 		zerolog.SetGlobalLevel(zerolog.TraceLevel)
 		zerolog.DisableSampling(false)
-		zerolog.TimestampFunc = func() time.Time { return refTime }
+		// a different second for every task
+		zerolog.TimestampFunc = func() time.Time { return refTime.Add(time.Duration(zsim.CurID()) * time.Second) }
 		zerolog.ErrorHandler = func(err error) {}
 		zerolog.ErrorStackMarshaler = func(err error) interface{} { return "STACK" }
 		var a io.Writer = raceSink{}
@@ -131,7 +132,7 @@ func (c06RaceWorld) Run(prop string, ch *zsim.Choices, trace bool) *RunResult {
 		nl := ch.Intn(5)
 		for i := 0; i < nl; i++ {
 			parent := loggers[ch.Intn(len(loggers))]
-			switch ch.Intn(6) {
+			switch ch.Intn(7) {
 			case 0, 1:
 				loggers = append(loggers, applyCtx(parent.With(), genOps(ch, 1+ch.Intn(3), 1, fmt.Sprintf("c%d_", i))).Logger())
 			case 2:
@@ -142,6 +143,8 @@ func (c06RaceWorld) Run(prop string, ch *zsim.Choices, trace bool) *RunResult {
 				loggers = append(loggers, parent.Sample(&zerolog.BasicSampler{N: uint32(1 + ch.Intn(3))}))
 			case 5:
 				loggers = append(loggers, parent.Sample(zerolog.LevelSampler{InfoSampler: &zerolog.BurstSampler{Burst: 2, Period: time.Second, NextSampler: &zerolog.BasicSampler{N: 2}}}))
+			case 6:
+				loggers = append(loggers, parent.With().Timestamp().Logger())
 			}
 		}
 		zlog.Logger = root.With().Str("global", "g").Logger()
